@@ -75,7 +75,10 @@ func Route(v *vrt.Ctx) {
 	}
 	// destination nodes: plain HALT, or starting with a further INCMP whose
 	// selector is arbitrary too (it must be inert: a match was already made)
-	destInCmp := v.Choice("dest-has-incmp", 2) == 1
+	// ... or terminal: no code at all, the session ends there (and must end
+	// there: the matched input is not reported as invalid afterwards)
+	destShape := v.Choice("dest-shape", 3)
+	destInCmp := destShape == 1
 	rs := app.NewRes()
 	names := []string{"root", "mid", "deep"}
 	for i := 0; i < depth-1; i++ {
@@ -90,8 +93,13 @@ func Route(v *vrt.Ctx) {
 		if destInCmp {
 			c.InCmp("extra", v.Str("dest-selector", 1))
 		}
+		if destShape == 2 {
+			rs.Node(t, t, c.Load("tail", 0).Bytes())
+			continue
+		}
 		rs.Node(t, t, c.Halt().Bytes())
 	}
+	rs.Funcs["tail"] = app.Static("t")
 	rs.Node("extra", "extra", app.Code().Halt().Bytes())
 	rs.Node("_catch", "catch", app.Code().Halt().InCmp("_", "*").Bytes())
 
